@@ -30,14 +30,22 @@ def _cols(rng, lead_shape, N, maxcols):
     return idx
 
 
-def coq_cols(rng, lp, w, mask, out, eps, tiny, rtol, maxcols=6):
-    """Coq expression comparing sampled observation columns"""
+def coq_cols(rng, lp, w, mask, out, eps, tiny, rtol, maxcols=6, single=False):
+    """Coq expression comparing sampled observation columns.  single: the implementation ran in single precision while the
+    model is evaluated in binary64 - a column is then compared only where no term depends on the float32 exp range, i.e. where
+    an active class with weight lies within 60 nats of the largest active log-pdf (columns without mass are outside the
+    property's precondition anyway; the NumPy predicates treat them the same way)"""
     K, N = lp.shape[-2:]
     lead = lp.shape[:-2]
     cols = []
     for ix in _cols(rng, lead, N, maxcols):
         li, n = ix[:-1], ix[-1]
         b = mask[li][:, n] if mask is not None else np.ones(K, bool)
+        if single:
+            lc = np.where(b, np.asarray(lp[li][:, n], float), -np.inf)
+            wc = np.asarray(np.broadcast_to(w, lp.shape)[li][:, n], float) if np.ndim(w) else np.full(K, float(w))
+            if not (b & (wc > 0) & (lc >= lc.max() - 60.0)).any():
+                continue
         cols.append('(%s, %s, %s, %s)' % (core.flist(w[li][:, n]), core.flist(lp[li][:, n]), core.blist(b),
                                           core.flist(out[li][:, n])))
     return 'check_posterior_cols %s %d %s %s [%s]' % (rtol, K - 1, core.fhex(tiny), core.fhex(eps), '; '.join(cols))
@@ -361,7 +369,7 @@ def eval_model(rp, rng=None):
     bdev = np.where(inq[..., None, :], np.abs(aff - ref), 0.0)
     if bdev.max() > btol:
         return ('predict(%s) differs from Bayes rule on its own log_pdf and weights by %.3g' % (name, bdev.max()),
-                'model:bayes:%s' % name, coq_cols(rng, lp, w, m2, np.asarray(aff, float), 0.0, mm.tiny_of(lp), rtol), None, False)
+                'model:bayes:%s' % name, coq_cols(rng, lp, w, m2, np.asarray(aff, float), 0.0, mm.tiny_of(lp), rtol, single=single), None, False)
     if rp.get('reassign') and K >= 2:
         # one model object used more than once: after new priors are stored, predict must be Bayes' rule for THOSE weights
         # (tests/test_distribution/test_cacgmm.py relabels a fitted model this way)
@@ -389,7 +397,7 @@ def eval_model(rp, rng=None):
                 return ('predict after storing new weights raised %s: %s' % (type(e).__name__, str(e)[:200]),
                         'model:reassign-crash:%s' % name, None, None, False)
     nt = K >= 2 and float(np.ptp(w)) > 1e-6 and bool(((aff > 0.01) & (aff < 0.99)).any())
-    return None, None, coq_cols(rng, lp, w, m2, np.asarray(aff, float), 0.0, mm.tiny_of(lp), rtol), None, nt
+    return None, None, coq_cols(rng, lp, w, m2, np.asarray(aff, float), 0.0, mm.tiny_of(lp), rtol, single=single), None, nt
 
 
 # ----------------------------------------------------------------------------- D: initializers
